@@ -35,18 +35,26 @@ def sh(cmd, timeout=None, cwd=None, env=None, inp=None):
 
 
 class Lock:
+    """process-reentrant exclusive lock on the Coq build directory"""
+    depth = 0
+    fh = None
+
     def __init__(self, name='build'):
         os.makedirs(BUILD, exist_ok=True)
         self.path = os.path.join(BUILD, name + '.lock')
 
     def __enter__(self):
-        self.fh = open(self.path, 'w')
-        fcntl.flock(self.fh, fcntl.LOCK_EX)
+        if Lock.depth == 0:
+            Lock.fh = open(self.path, 'w')
+            fcntl.flock(Lock.fh, fcntl.LOCK_EX)
+        Lock.depth += 1
         return self
 
     def __exit__(self, *a):
-        fcntl.flock(self.fh, fcntl.LOCK_UN)
-        self.fh.close()
+        Lock.depth -= 1
+        if Lock.depth == 0:
+            fcntl.flock(Lock.fh, fcntl.LOCK_UN)
+            Lock.fh.close()
 
 
 # ---------------------------------------------------------------- Coq literals
@@ -78,14 +86,12 @@ def cpair(a, b):
 # ------------------------------------------------------------------ translate
 def translate(names=None):
     """regenerate coq/Gen from REPO's working tree; returns {kernel: error|None}"""
-    import importlib
     import pykernel
     import kernels
-    importlib.reload(kernels)
-    specs = [k for n, k in kernels.ALL.items() if names is None or n in names]
+    allk, extra = kernels.load()
+    specs = [k for n, k in allk.items() if names is None or n in names]
     with Lock():
         res = pykernel.generate_all(specs, REPO, os.path.join(COQ, 'Gen'))
-        extra = getattr(kernels, 'EXTRA_GENERATORS', {})
         for n, fn in extra.items():
             if names is None or n in names:
                 try:
@@ -104,10 +110,25 @@ def translate(names=None):
 
 
 # ---------------------------------------------------------------------- build
+COQ_DIRS = ['Lib', 'Gen', 'Model', 'Proofs', 'Props']
+
+
 def ensure_makefile():
+    """_CoqProject is derived from the directory contents (so that adding a file
+    needs no edit of a shared file); the Makefile is regenerated when it changes"""
     mk = os.path.join(COQ, 'Makefile')
     cp = os.path.join(COQ, '_CoqProject')
-    if not os.path.exists(mk) or os.path.getmtime(mk) < os.path.getmtime(cp):
+    files = []
+    for d in COQ_DIRS:
+        dd = os.path.join(COQ, d)
+        if os.path.isdir(dd):
+            files += sorted('%s/%s' % (d, f) for f in os.listdir(dd) if f.endswith('.v') and not f.startswith('.'))
+    text = '-Q . BV\n-arg -w -arg -notation-overridden,-deprecated-hint-without-locality\n' + '\n'.join(files) + '\n'
+    old = open(cp).read() if os.path.exists(cp) else None
+    if old != text:
+        with open(cp, 'w') as fh:
+            fh.write(text)
+    if not os.path.exists(mk) or old != text:
         rc, out, _ = sh('coq_makefile -f _CoqProject -o Makefile', cwd=COQ, timeout=120)
         if rc != 0:
             raise RuntimeError('coq_makefile failed: ' + out)
@@ -358,7 +379,15 @@ class Result:
             self.cov[k] = v
 
     def proof_step(self, props_file, extra_targets=(), kernels_needed=(), trans=None):
-        """build the cone of Props/<pid>.v; record obligations/assumptions"""
+        """translate /repo -> coq/Gen and build the cone of Props/<pid>.v (one lock
+        region, so a concurrent check cannot swap Gen in between); record
+        obligations/assumptions"""
+        with Lock():
+            if trans is None:
+                trans = translate()
+            return self._proof_step(props_file, extra_targets, kernels_needed, trans)
+
+    def _proof_step(self, props_file, extra_targets, kernels_needed, trans):
         bad = grep_forbidden()
         if bad:
             self.broken.append(dict(kind='forbidden', name='forbidden construct', detail='; '.join(bad)))
